@@ -30,15 +30,21 @@ import (
 
 // sizedAction serialises to exactly Size bytes and declares the given keys.
 type sizedAction struct {
-	Size    int
-	Keys    []wsKey
-	Compute uint64
+	Size       int
+	Keys       []wsKey
+	Compute    uint64
+	SponsorRaw []byte // the balance handler's key of the sponsor (for keys named wsSponsorKey)
 }
 
+// wsKey is one declared state key: a named key with a chunk suffix, or (Name == wsSponsorKey) the sponsor's own balance
+// key, declared with the raw state.Permissions byte Perm (read 1, allocate 2, write 4).
 type wsKey struct {
 	Name   string `json:"name"`
 	Chunks int    `json:"chunks"`
+	Perm   int    `json:"perm"`
 }
+
+const wsSponsorKey = "$sponsor-balance"
 
 func (a *sizedAction) ValidRange(chain.Rules) (int64, int64) { return -1, -1 }
 func (a *sizedAction) ComputeUnits(chain.Rules) uint64       { return a.Compute }
@@ -53,7 +59,11 @@ func (a *sizedAction) Bytes() []byte {
 func (a *sizedAction) StateKeys(codec.Address, ids.ID) state.Keys {
 	ks := state.Keys{}
 	for _, k := range a.Keys {
-		ks[string(keys.EncodeChunks([]byte("ws/"+k.Name), uint16(k.Chunks)))] = state.All
+		if k.Name == wsSponsorKey {
+			ks[string(a.SponsorRaw)] |= state.Permissions(k.Perm)
+			continue
+		}
+		ks[string(keys.EncodeChunks([]byte("ws/"+k.Name), uint16(k.Chunks)))] |= state.Permissions(k.Perm)
 	}
 	return ks
 }
@@ -193,33 +203,55 @@ func TestVerifWireSize(t *testing.T) {
 				return 128
 			}
 		}
+		var sponsorRaw []byte
+		balChunks := 1
+		for k := range bh.SponsorStateKeys(fa.f.Address()) {
+			sponsorRaw = []byte(k)
+			c, _ := keys.DecodeChunks([]byte(k))
+			balChunks = int(c)
+		}
 		actions := make([]chain.Action, na)
 		recs := make([]wsAct, na)
 		for i := 0; i < na; i++ {
 			a := &sizedAction{Size: sizeOf(i), Compute: uint64(r.Intn(4))}
-			nk := 0
+			nk := r.Intn(2)
 			if na <= 40 {
 				nk = r.Intn(4)
 			}
+			// every permission mix (read, read|write, read|allocate, all, write only, allocate|write), several chunk
+			// suffixes, duplicates across actions, and now and then the sponsor's own balance key
+			perms := []int{1, 5, 3, 7, 7, 1, 4, 6}
 			for k := 0; k < nk; k++ {
-				a.Keys = append(a.Keys, wsKey{Name: fmt.Sprintf("k%d", r.Intn(5)), Chunks: 1 + r.Intn(3)})
+				if r.Intn(8) == 0 {
+					a.Keys = append(a.Keys, wsKey{Name: wsSponsorKey, Chunks: balChunks, Perm: perms[r.Intn(len(perms))]})
+					continue
+				}
+				a.Keys = append(a.Keys, wsKey{Name: fmt.Sprintf("k%d", r.Intn(5)), Chunks: 1 + r.Intn(3), Perm: perms[r.Intn(len(perms))]})
 			}
-			// state.Keys is a map: duplicate (name, chunks) inside one action collapse
-			seen := map[wsKey]bool{}
+			a.SponsorRaw = sponsorRaw
+			// state.Keys is a map: the same (name, chunks) inside one action collapses, permissions are OR-ed
+			idx := map[[2]string]int{}
 			ks := []wsKey{}
 			for _, k := range a.Keys {
-				if !seen[k] {
-					seen[k] = true
-					ks = append(ks, k)
+				id := [2]string{k.Name, fmt.Sprint(k.Chunks)}
+				if j, ok := idx[id]; ok {
+					ks[j].Perm |= k.Perm
+					continue
 				}
+				idx[id] = len(ks)
+				ks = append(ks, k)
 			}
 			a.Keys = ks
 			actions[i] = a
 			recs[i] = wsAct{Size: a.Size, Keys: ks, Compute: int64(a.Compute)}
 		}
 		var prices fees.Dimensions
+		nonZero := r.Intn(2) == 0 // half of the shapes: a non-zero price in all five dimensions
 		for i := range prices {
 			prices[i] = uint64([]int{0, 1, 1, 2, 7, 100}[r.Intn(6)])
+			if nonZero && prices[i] == 0 {
+				prices[i] = uint64(1 + r.Intn(9))
+			}
 		}
 		now := int64(1_724_315_246_000 + r.Intn(1_000_000_000))
 		line := wsLine{Ev: "tx", Sc: s, Auth: fa.name, Actions: recs, MaxActions: maxA, Prices: i64s(prices),
